@@ -297,18 +297,18 @@ theorem evalE_TP (call : Storage → NodeId → Storage × Res Nat) (P : Prog)
       have h1 : TP s s1 := by have := ih a s; rw [heq] at this; exact this
       split
       · exact h1.trans (regDep_TP ..)
-      · exact h1
+      · exact h1.trans (regDep_TP ..)
     · exact ih a s
   | sing i =>
     simp only [evalE]
     split
     · exact regDep_TP ..
-    · exact TP.refl _
+    · exact regDep_TP ..
   | trk m =>
     simp only [evalE]
     split
     · exact regDep_TP ..
-    · exact TP.refl _
+    · exact regDep_TP ..
   | call f e ih =>
     simp only [evalE]
     split
@@ -376,6 +376,7 @@ theorem depChanged_TP (ex : Storage → NodeId → Storage × Res Bool)
   unfold depChanged
   split
   · split <;> exact TP.refl _
+  · exact TP.refl _
   · split
     · exact TP.refl _
     · split
